@@ -193,6 +193,28 @@ def handle (req : Json) : Except String Json := do
       | some l => ofList ratToJson l
       | none => Json.null
     pure (obj [("prog", ofList optJ byProg), ("model", ofList optJ byModel)])
+  | .ok (.str "own") =>
+    -- phase 6: {"op":"own","terms":[inter…],"keep":bool?,"ops":[{"encode":[["x",nsval]…]}|{"editResult":k}|{"editTerms":[inter…]}…]}
+    -- → the values returned by the encode steps of the ownership history (`ownRun`), the encoder's final terms
+    let is ← (← arr (← field req "terms")).mapM parseInter
+    let keep ← bool (fieldD req "keep" (Json.bool false))
+    let ops ← (← arr (← field req "ops")).mapM (fun j => do
+      match j.getObjVal? "encode", j.getObjVal? "editResult", j.getObjVal? "editTerms" with
+      | .ok v, _, _ => do
+        let kw ← (← arr v).mapM (fun p => do
+          match p with
+          | .arr #[c, v] => pure (← parseChar c, ← parseNsVal v)
+          | _ => throw "pair expected")
+        pure (OwnOp.encode kw)
+      | _, .ok k, _ => do pure (OwnOp.editResult (← nat k) (.dense []))
+      | _, _, .ok v => do pure (OwnOp.editTerms (← (← arr v).mapM parseInter))
+      | _, _, _ => throw "OwnOp expected")
+    let interJ := fun (i : Inter) => match i with
+      | .num q => obj [("n", ratToJson q)]
+      | .term t => obj [("t", Json.str (String.ofList t))]
+    let out := ownRun ⟨!keep⟩ Cfg.fixed is ops
+    pure (obj [("returned", ofList outToJson out.1), ("encTerms", ofList interJ out.2.encTerms),
+               ("held", ofNat out.2.results.length)])
   | .ok (.str "fl53") =>
     -- {"op":"fl53","chain":[[num,den],…]} → {"prods":[rat,…]}: prods[0] = fl53 x₀, prods[i] = fmul53 prods[i-1] xᵢ
     let xs ← ratList (← field req "chain")
